@@ -1105,6 +1105,8 @@ func (h *history) run() {
 
 // fanKeys returns a function from a branch byte to a key literal such that all 256 keys are siblings below one
 // inner node (nil when the kind has no such family for this variant).
+var fanHan = false // the next collation fan is over consecutive Han characters
+
 var fanLongPre = 0 // >0: the next byte-string fan sits below a compressed path of that many bytes
 
 func fanKeys(spec string, r *rand.Rand) func(b int) string {
@@ -1126,6 +1128,9 @@ func fanKeys(spec string, r *rand.Rand) func(b int) string {
 	case "coll":
 		// neighbouring characters of one script in one position: sort keys that branch widely at one depth
 		base := pick(r, []rune{0x4E00, 0x0400, 0x3040, 0xAC00, 0x0100})
+		if fanHan {
+			base = 0x4E00 // consecutive Han characters: sort keys that differ in one byte – one node of up to 256 children
+		}
 		pre := pick(r, []string{"", "a", "语"})
 		return func(b int) string { return hexLit([]byte(pre + string(base+rune(b)))) }
 	case "num":
@@ -1728,6 +1733,12 @@ func runTreeMode(cfg treeRunCfg, tr *transcript) {
 					h.remove(h.order[len(h.order)-1])
 				}
 				h.runFan(fk)
+				if fam == "coll" {
+					fanHan = true
+					fk2 := fanKeys(hc.spec, r)
+					fanHan = false
+					h.runFan(fk2)
+				}
 				if fam == "alpha" {
 					// and once more below a long compressed path, and below one of more than 2^8 bytes
 					for _, L := range []int{pick(r, []int{11, 13, 22}), 258} {
